@@ -382,33 +382,40 @@ func runC03(r *core.Run) {
 		}
 		return data, want, true, ""
 	})
-	escapeSpellingsClause(r, "sam", []string{"qname", "rname", "cigar", "rnext", "seq", "qual", "ztag", "ztag-last"}, func(field, v string) ([]byte, []obsItem, bool, string) {
-		if hasDelim(v) || (field == "qname" && v[0] == '@') {
-			return nil, nil, false, ""
-		}
-		first, mid, last := defaultSamRec(), defaultSamRec(), defaultSamRec()
+	samFieldNames := []string{"qname", "rname", "cigar", "rnext", "seq", "qual", "ztag", "ztag-last"}
+	samFields := func(field string, vals []string) ([]byte, []obsItem, bool, string) {
+		first, last := defaultSamRec(), defaultSamRec()
 		first.Qname, last.Qname = "first", "last"
-		switch field {
-		case "qname":
-			mid.Qname = core.S(v)
-		case "rname":
-			mid.Rname = core.S(v)
-		case "cigar":
-			mid.Cigar = core.S(v)
-		case "rnext":
-			mid.Rnext = core.S(v)
-		case "seq":
-			mid.Seq = core.S(v)
-		case "qual":
-			mid.Qual = core.S(v)
-		case "ztag":
-			mid.Tags = []samTag{{Name: "XZ", Type: "Z", Z: core.S(v)}, {Name: "NM", Type: "i", I: 7}}
-		default:
-			mid.Tags = []samTag{{Name: "ZZ", Type: "Z", Z: core.S(v)}}
+		recs := []samRec{first}
+		for _, v := range vals {
+			if hasDelim(v) || (field == "qname" && (v == "" || v[0] == '@')) {
+				return nil, nil, false, ""
+			}
+			mid := defaultSamRec()
+			switch field {
+			case "qname":
+				mid.Qname = core.S(v)
+			case "rname":
+				mid.Rname = core.S(v)
+			case "cigar":
+				mid.Cigar = core.S(v)
+			case "rnext":
+				mid.Rnext = core.S(v)
+			case "seq":
+				mid.Seq = core.S(v)
+			case "qual":
+				mid.Qual = core.S(v)
+			case "ztag":
+				mid.Tags = []samTag{{Name: "XZ", Type: "Z", Z: core.S(v)}, {Name: "NM", Type: "i", I: 7}}
+			default:
+				mid.Tags = []samTag{{Name: "ZZ", Type: "Z", Z: core.S(v)}}
+			}
+			recs = append(recs, mid)
 		}
+		recs = append(recs, last)
 		var data []byte
 		var want []obsItem
-		for _, rc := range []samRec{first, mid, last} {
+		for _, rc := range recs {
 			d, fail := writeSAMChecked(rc.build())
 			if fail != "" {
 				return nil, nil, true, fail
@@ -417,7 +424,9 @@ func runC03(r *core.Run) {
 			want = append(want, obsItem{Rec: renderSAM(rc.build())})
 		}
 		return data, want, true, ""
-	})
+	}
+	escapeSpellingsClause(r, "sam", samFieldNames, samFields)
+	relativesClause(r, "sam", samFieldNames, samFields)
 	interleavedReadersFor(r, []string{"sam", "samh"})
 	consumerMutatesRecords(r, []string{"sam", "samh"})
 	bigFiles(r, "sam", []int{0})
